@@ -9,7 +9,7 @@ from hypothesis import strategies as st
 from .. import gen, norm, states, walk
 from ..common import lib
 from ..core import require
-from ..spec import build, kinds
+from ..spec import build, kinds, walk_spec
 
 ID = "C09"
 BUDGET = {"quick": (4, 1500), "thorough": (16, 15000)}
@@ -19,7 +19,8 @@ RULE = (
     "reload; (single difference) the same spec filled from two streams that differ in one datum (moved between bins, "
     "dropped, duplicated), a structural variant of the spec (extra trailing threshold / centre / bin, moved edge, other "
     "child type, look-alike primitive) filled with the same stream, and a pickle clone with one numeric field perturbed "
-    "by one ulp or by a gross amount; (history) an object and its copy / pickle clone / twin are compared, one is then "
+    "by one ulp or by a gross amount; (relabel) the same labelled tree declared with its keys in the opposite order, "
+    "or with the children of two keys exchanged; (history) an object and its copy / pickle clone / twin are compared, one is then "
     "changed by fills or +=, they are compared again, the other gets the same change, and they are compared a third "
     "time; (arbitrary) two independent trees.  Reference relation R = equality of type tree, "
     "structural parameters and normalised content (NaN == NaN, names ignored).  Oracle: == returns a bool without "
@@ -65,7 +66,7 @@ def strategy(tier):
         spec, focus = draw(gen.specs_and_focus(opts, 8))
         stream, _ = draw(gen.streams(spec, max_rows=24 if thorough else 12, focus=focus))
         stream = [[r, w] for r, w in stream]
-        mode = draw(st.sampled_from(("positive", "datum", "datum", "structure", "structure", "perturb", "perturb", "arbitrary", "history")))
+        mode = draw(st.sampled_from(("positive", "datum", "datum", "structure", "structure", "perturb", "perturb", "arbitrary", "history", "relabel")))
         case = {"spec": spec, "stream": stream, "mode": mode}
         if mode == "positive":
             # the state may also be one made by the combining constructors (immutable; Stack.build has NaN thresholds)
@@ -85,6 +86,8 @@ def strategy(tier):
             case["node"] = draw(st.integers(0, 200))
             case["field"] = draw(st.integers(0, 5))
             case["amount"] = draw(st.sampled_from(("ulp", "-ulp", "gross", "gross", "neg", "to-inf", "to-nan")))
+        elif mode == "relabel":
+            case["swap"] = draw(st.booleans())
         elif mode == "history":
             extra, _ = draw(gen.streams(spec, max_rows=6, focus=focus))
             case["extra"] = [[r, w] for r, w in extra]
@@ -98,6 +101,22 @@ def strategy(tier):
         return case
 
     return cases()
+
+
+def swap_children(spec):
+    """Exchange the children of the first two keys of the first Label / UntypedLabel that has two different children."""
+    import copy  # noqa: PLC0415
+
+    out = copy.deepcopy(spec)
+    for _, node in walk_spec(out):
+        if node["k"] in ("Label", "UntypedLabel") and len(node["pairs"]) >= 2:
+            ks = list(node["pairs"])
+            for i in range(len(ks)):
+                for j in range(i + 1, len(ks)):
+                    if node["pairs"][ks[i]] != node["pairs"][ks[j]]:
+                        node["pairs"][ks[i]], node["pairs"][ks[j]] = node["pairs"][ks[j]], node["pairs"][ks[i]]
+                        return out
+    return None
 
 
 def ndoc(h):
@@ -233,7 +252,20 @@ def check(case):  # noqa: PLR0912, PLR0915
             labels += ["clone:" + case["clone"], "op:" + case["op"], "R-true" if R else "R-false"]
             return {"nontrivial": not R, "labels": labels}
 
-        if mode == "datum":
+        if mode == "relabel":
+            # the same labelled tree declared with its keys in the opposite order (same content), or with the
+            # children of two keys exchanged (other content under the same keys): children are compared by key
+            from ..spec import relabeled  # noqa: PLC0415
+
+            v = relabeled(spec)
+            if case["swap"]:
+                v = swap_children(v)
+            if v is None or not any(s_["k"] in ("Label", "UntypedLabel") and len(s_["pairs"]) >= 2 for _, s_ in walk_spec(spec)):
+                return {"nontrivial": False, "labels": labels + ["no-label"]}
+            b = fill(build(v), stream)
+            what = "relabel:" + ("children-exchanged" if case["swap"] else "key-order")
+            labels.append(what)
+        elif mode == "datum":
             s2 = [list(x) for x in stream]
             if s2:
                 i = case["at"] % len(s2)
